@@ -67,6 +67,11 @@ CLAIMED = {
                 text="Wire.tla models bufio.Writer/Reader exactly (direct write of large payloads on an empty buffer, fill-and-flush, one fill per read, minimum reader size) for "
                      "buffered-both/read-only/write-only/raw variants; TLC checks no-reorder, flushed-means-delivered and read-no-loss over all operation sequences at the bound; "
                      "sequences run on the real wrappers over a scripted net.Conn, the segments of every connection write are validated by TLC and bytes compared with the streams."),
+    "C10": dict(engine="channel", design="3/C10", technique="TLA+ model checking (TLC) of packet-buffer ownership in Channel.tla (clone, recycle, pool users) + replay on the real channel with buffer and pool scribbling",
+                text="Channel.tla tracks which packet buffers are pooled and which were overwritten (callers reusing their buffers, other pool users); TLC checks C10_Snapshot and "
+                     "C10_Exclusive, and the two specification mutants (no clone; recycle before Writev) must violate them (anti-vacuity); on the real channel every caller "
+                     "overwrites its buffer right after each call and a pool user obtains and overwrites buffers of every size class after every scheduler step (GOMAXPROCS(1)); "
+                     "checksummed payloads at the recording transport decide."),
 }
 NA = {}
 for p in props:
